@@ -4,16 +4,25 @@ import common, schema, histgen, refcbor, cborgen
 from concurrent.futures import ThreadPoolExecutor
 THEOREMS = ["C03_window", "C03_alloc_bounded", "C03_alloc_bounded_skip", "C03_alloc_bounded_strings", "C03_time_arith", "C03_index_checked",
             "C03_params_index_checked", "C03_dname", "C03_fuel_partial", "C03_repeated_keys_as_the_code", "C03_nonvacuous"]
-EXTRA_PROPERTY_FILES = ("Properties_format", "Properties_cursor", "Properties_decoder")   # obligations over the regenerated Gen_*.v (translator/*.py)
+EXTRA_PROPERTY_FILES = ("Properties_format", "Properties_cursor", "Properties_decoder", "Properties_timestamp")   # obligations over the regenerated Gen_*.v (translator/*.py)
 TOOLS = True
 OPS = ["D pk", "D u", "D n", "D i", "D b", "D bs", "D ts", "D as", "D ms", "D br", "D sk"]
+
+def narrow_ancount(l):
+    """GenericQueryResponse::query_ancount is a uint16_t, QueryResponseSignature::query_ancount a uint32_t: read_generic_qr narrows a stored
+    count above 65535 (only files of other writers hold one; the model's generic record carries the member as wide as it is stored - DESIGN.md
+    section 8). The narrowing is applied here, to both sides."""
+    if not l.startswith("qr R[ "): return l
+    t = l.split(" ")
+    if len(t) > 16 and t[16].startswith("N") and t[16][1:].isdigit(): t[16] = "N%d" % (int(t[16][1:]) % 65536)
+    return " ".join(t)
 
 def loosen(lines):
     """file-level reads of malformed input: the class of the exception is not compared, and nothing after it"""
     out = []
     for l in lines:
         if l.startswith("throw "): out.append("throw"); break
-        out.append(l)
+        out.append(narrow_ancount(l))
     return out
 
 def valid_files(ctx, sch, rng, n):
@@ -163,6 +172,15 @@ def run(ctx):
         else: b = rng.choice([b"\xa1\x00\x00", b"\xa0", b"\xbf\xff", b"", b"\x00", b"\xa1\x00\xa0", b"\xa1\x04\x81\x00", b"\xa1\x02\xa0"])
         reuse.append({"id": "ru%d" % i, "script": ["F reuse %s %d %s %s" % (f.hex(), rng.choice([0, 1, 1, 2, 50]), how, b.hex() or "-")], "expect": ["reuse ok", None],
                       "what": "a CdnsBlockRead object used a second time", "meta": {"kind": "reader/object-reused-" + how}})
+    # (j) boundary integers in every numeric field, ONE FIELD AT A TIME: valid files in which exactly one unsigned integer value - a time
+    #     offset, a count, a port, a table index, a tick rate ... - is replaced by 2^63-1, 2^63, 2^63+1, 2^64-1, 2^32, 2^31 (the rest of the
+    #     file intact, so that the reader gets as far as USING the value: time arithmetic, index resolution, reservations)
+    bvals = [2 ** 63 - 1, 2 ** 63, 2 ** 63 + 1, 2 ** 64 - 1, 2 ** 32, 2 ** 31]
+    for fi, f in enumerate(files[:(2 if tier == "quick" else 12)]):
+        try: t = refcbor.parse_all(f)
+        except Exception: continue
+        for pth, v, m in refcbor.single_int_mutants(t, bvals, rng, limit=(250 if tier == "quick" else 3000)):
+            loose.append({"id": "bi%d_%s_%d" % (fi, "-".join(map(str, pth)), v), "script": ["F read " + m.hex()], "expect": None, "meta": {"kind": "reader/one-integer-at-a-boundary"}})
     # (c) renderers on arbitrary strings (implementation only: no sanitizer report, no crash)
     rend = []
     names = [b"\x14" + b"a" * 19, b"\x01", b"\x03www", b"\x03www\x00", b"\xff", b"\x00", b"", b"\x01a\x3f" + b"b" * 10, b"\x05ab"]
@@ -215,5 +233,6 @@ def run(ctx):
         "whose value is nested 60000 deep (arrays, indefinite arrays, tags, maps) in the preamble map and the first block map; (h) each kind of stored "
         "table index (27 kinds) set to exactly the length of the table it points into; (i) one CdnsBlockRead object used twice - a valid block read "
         "and partly consumed, then read() of valid / mutated / truncated block bytes on the same object, then all accessors and renderers: "
-        "no access to what the first use left behind, and after a successful read exactly the records a fresh object hands out", diffs, fails)
+        "no access to what the first use left behind, and after a successful read exactly the records a fresh object hands out; (j) valid files with exactly ONE unsigned "
+        "integer value replaced by 2^63-1, 2^63, 2^63+1, 2^64-1, 2^32 or 2^31 (every numeric field in turn, the rest intact, so that the reader uses the value)", diffs, fails)
     return {"diffs": diffs, "fails": fails, "to_script": lambda c: common.case_script(c)}
